@@ -24,6 +24,7 @@ mod shape_corr;
 mod lists_corr;
 mod strings_corr;
 mod optin_corr;
+mod optin_inproc;
 mod corpus;
 mod gen;
 mod sweep;
@@ -98,6 +99,7 @@ fn main() {
         "c13api" => c13::api_main(&args[2..]),
         "c18" => c18::run(&tier, seed, &out),
         "strings" => strings_corr::run(&tier, seed, &out),
+        "optin" => optin_corr::run(&tier, seed, &out),
         "optin-dump" => optin_corr::dump(&args[2], args.get(3)),
         "boundary" => boundary::main(&args[2..]),
         "c03" => c03::run(&tier, seed, &out),
